@@ -103,6 +103,14 @@ def prop_case(case):
     return Result(fails, nontrivial=nontrivial, classes=[sim, 'labels=' + type(oracles.tolabel(nodes[0])).__name__])
 
 
+large_case = simrun.large_case
+
+
+def prop_large(case):
+    res = prop_case(case)
+    return Result(res.failures, nontrivial=True, classes=[case['sim'], 'shape=' + case['large'][0], 'weights=' + case['large'][1]])
+
+
 def KIND_generic(case):
     return simrun.KIND[case['sim']] == 'generic'
 
@@ -213,6 +221,8 @@ def replay(ctx, sub, case):
         before = len(ctx.violations)
         run_xproc(ctx, 'xproc-replay', 1, cases=[case])
         return [Failure(v['signature'], v['message']) for v in ctx.violations[before:]]
+    if sub == 'large':
+        return prop_large(case).failures
     return prop_case(case).failures
 
 
@@ -221,11 +231,15 @@ def run(ctx):
     ctx.rule = ('Hypothesis: simulator (12) x graph n<=20 with int/permuted/string/tuple labels x parameters x seed: repeat in-process with '
                 'the same seeds, compare RNG states after both return modes (continuous time). Cross-process: a generated batch of continuous-time cases with string/tuple/mixed labels in 4 '
                 'fresh interpreters (PYTHONHASHSEED 0,1,2,random). Non-trivial: non-integer labels or a generic (string-status) '
-                'simulator; every cross-process case counts.')
+                'simulator; every cross-process case counts. Class `large`: 70-150 nodes with a hub of degree >= 69 and weights spread over '
+                '6 orders of magnitude or one candidate 1500x heavier (size / rejection-count thresholds).')
     ctx.assumptions = ['user callbacks return ordered containers', 'discrete-time simulators are not asserted across hash seeds (the statement allows it)']
     only = getattr(ctx, 'only', None)
     if not only or 'inproc' in only:
         for sim in simrun.SIMS:
             run_hypothesis(ctx, 'inproc', simrun.sim_case(sims=[sim], nmax=20), prop_case, 60 if quick else 2500)
+    if not only or 'large' in only:
+        for sim in simrun.SIMS:
+            run_hypothesis(ctx, 'large', large_case(sim), prop_large, 25 if quick else 400, rounds=2, case_timeout=300)
     if not only or 'xproc' in only:
         run_xproc(ctx, 'xproc', 240 if quick else 3000)
